@@ -1441,3 +1441,22 @@ package restful
 //@ requires handler != nil && req != nil && resp != nil
 //@ modifies headers, ghost $trace
 //@ callsite iface:http.Handler.ServeHTTP target: self == handler && arg0 == resp && arg1 == req.Request
+
+// ---------------------------------------------------------------------------
+// how a routing error reaches the client (C02): the default handler sends the error's own status
+
+//@ func (*Response).WriteErrorString
+//@ props C02 C15
+//@ requires r != nil && r.ResponseWriter != nil
+//@ modifies r.err, r.statusCode, r.contentLength, ghost $g.wstatus, ghost $g.whcalls, ghost $g.accepted, ghost $g.lasterr, ghost $g.wcalls
+//@ ensures status: r.statusCode == httpStatus && statusReceived(r.ResponseWriter) == httpStatus
+//@ nopanic
+
+//@ func writeServiceError
+//@ props C02 C17
+//@ requires resp != nil && resp.ResponseWriter != nil
+//@ modifies resp.err, resp.statusCode, resp.contentLength, headers, ghost $g.wstatus, ghost $g.whcalls, ghost $g.accepted, ghost $g.lasterr, ghost $g.wcalls
+//@ ensures status: resp.statusCode == err.Code && statusReceived(resp.ResponseWriter) == err.Code
+//@ nopanic
+//@ loop 0 invariant writer: resp != nil && resp.ResponseWriter == old(resp.ResponseWriter)
+//@ loop 1 invariant writer: resp != nil && resp.ResponseWriter == old(resp.ResponseWriter)
